@@ -375,14 +375,15 @@ theorem v2gLoop_NZ (ops : Ops α B) (env : Env α) (v : VehicleS α B) (ts : Lis
                   exact ⟨hu, hp⟩
 
 /-- invariant of the compensation loop: what is noted for the current timestep is what `power[0]` holds -/
-def CInv (L : Nat) (c : CompSt α B) : Prop :=
-  c.power.length = L ∧ (c.simPower = none → Z c.power) ∧ (∀ x, c.simPower = some x → c.power[0]? = some x)
+def CInv (ts : List (TS α)) (L : Nat) (c : CompSt α B) : Prop :=
+  c.power.length = L ∧ (c.simPower = none → Z c.power) ∧ (∀ x, c.simPower = some x → c.power[0]? = some x) ∧
+    (∀ x, c.simPower = some x → ∀ t0, ts[0]? = some t0 → x ≤ max 0 t0.power)
 
 theorem compFold_CInv (ops : Ops α B) (v : VehicleS α B) (cs : StationS α) (ts : List (TS α))
     (realSoc v2gCost : α) (L : Nat) :
-    ∀ (l : List (α × Nat)) (c c' : CompSt α B), (l.map (·.2)).Nodup → CInv L c →
+    ∀ (l : List (α × Nat)) (c c' : CompSt α B), (l.map (·.2)).Nodup → CInv ts L c →
       (c.simPower.isSome = true → ∀ e ∈ l, e.2 = 0 → v2gCost ≤ e.1) →
-      l.foldlM (compStep ops v cs ts realSoc v2gCost) c = .ok c' → CInv L c' := by
+      l.foldlM (compStep ops v cs ts realSoc v2gCost) c = .ok c' → CInv ts L c' := by
   intro l
   induction l with
   | nil =>
@@ -397,8 +398,8 @@ theorem compFold_CInv (ops : Ops α B) (v : VehicleS α B) (cs : StationS α) (t
     · cases h
     · rename_i c1 hc1
       -- one step
-      have hstep : CInv L c1 ∧ (c1.simPower.isSome = true → ∀ e' ∈ rest, e'.2 = 0 → v2gCost ≤ e'.1) := by
-        have hkeep : c1 = c → CInv L c1 ∧
+      have hstep : CInv ts L c1 ∧ (c1.simPower.isSome = true → ∀ e' ∈ rest, e'.2 = 0 → v2gCost ≤ e'.1) := by
+        have hkeep : c1 = c → CInv ts L c1 ∧
             (c1.simPower.isSome = true → ∀ e' ∈ rest, e'.2 = 0 → v2gCost ≤ e'.1) := by
           intro he; subst he
           exact ⟨hc, fun hs e' he' => hsafe hs e' (List.mem_cons_of_mem _ he')⟩
@@ -447,7 +448,7 @@ theorem compFold_CInv (ops : Ops α B) (v : VehicleS α B) (cs : StationS α) (t
                           have := (List.getElem?_eq_some_iff.mp hx).1
                           omega
                         · cases hcur
-                      refine ⟨⟨by simp only [List.length_set]; exact hc.1, ?_, ?_⟩, ?_⟩
+                      refine ⟨⟨by simp only [List.length_set]; exact hc.1, ?_, ?_, ?_⟩, ?_⟩
                       · intro hn; simp [he0] at hn
                       · intro x hx
                         simp only [he0, beq_self_eq_true, if_true, Option.some.injEq] at hx
@@ -455,11 +456,21 @@ theorem compFold_CInv (ops : Ops α B) (v : VehicleS α B) (cs : StationS α) (t
                         show (c.power.set e.2 _)[0]? = _
                         rw [he0, hcur0, zero_add]
                         simp [List.getElem?_set, hlen]
+                      · intro x hx t0 ht0
+                        simp only [he0, beq_self_eq_true, if_true, Option.some.injEq] at hx
+                        subst hx
+                        have htt : t = t0 := by
+                          unfold lget at ht
+                          rw [he0, ht0] at ht
+                          simp only [Except.ok.injEq] at ht
+                          exact ht.symm
+                        rw [htt, hcur0, sub_zero]
+                        exact clampV_le cs v.minChargingPower t0.power
                       · intro _ e' he' he'0
                         exfalso
                         exact hnd.1 e' he' (by rw [he'0, he0])
                     · have hb : (e.2 == 0) = false := by simpa using he0
-                      refine ⟨⟨by simp only [List.length_set]; exact hc.1, ?_, ?_⟩, ?_⟩
+                      refine ⟨⟨by simp only [List.length_set]; exact hc.1, ?_, ?_, ?_⟩, ?_⟩
                       · intro hn
                         simp only [hb, Bool.false_eq_true, if_false] at hn
                         intro q hq
@@ -470,7 +481,10 @@ theorem compFold_CInv (ops : Ops α B) (v : VehicleS α B) (cs : StationS α) (t
                         simp only [hb, Bool.false_eq_true, if_false] at hx
                         show (c.power.set e.2 _)[0]? = _
                         rw [List.getElem?_set_ne he0]
-                        exact hc.2.2 x hx
+                        exact hc.2.2.1 x hx
+                      · intro x hx
+                        simp only [hb, Bool.false_eq_true, if_false] at hx
+                        exact hc.2.2.2 x hx
                       · intro hs e' he' he'0
                         simp only [hb, Bool.false_eq_true, if_false] at hs
                         exact hsafe hs e' (List.mem_cons_of_mem _ he') he'0
@@ -499,7 +513,8 @@ theorem v2gLoop_Zspec (ops : Ops α B) (env : Env α) (v : VehicleS α B) (ts : 
       v2gLoop ops env v ts sorted k st = .ok st' →
       (Untouched st st' ∧ Z st'.power) ∨
       (∃ stx sp, applyV2g ops v stx sp = .ok st' ∧ stx.bat = st.bat ∧ stx.gc = st.gc ∧ stx.cs = st.cs ∧
-        stx.cmds = st.cmds ∧ stx.dis = st.dis ∧ stx.power[0]? = some sp) := by
+        stx.cmds = st.cmds ∧ stx.dis = st.dis ∧ stx.power[0]? = some sp ∧
+        (∀ t0, ts[0]? = some t0 → sp ≤ max 0 t0.power) ∧ sorted ≠ []) := by
   intro k
   induction k with
   | zero =>
@@ -541,9 +556,9 @@ theorem v2gLoop_Zspec (ops : Ops α B) (env : Env α) (v : VehicleS α B) (ts : 
                 generalize hp : (pymin (pymax (pymax (t.power - ((2 : Nat) : α) * t.maxPower)
                   (-(st.cs.maxPower + st.cs.currentPower))) (-ops.unloadMaxPower st.bat)) 0) = p at hc h hsim
                 -- the compensation loop
-                have hcinit : CInv sorted.length (⟨false, st.power.set v2gTs p, st.sortedIdx,
+                have hcinit : CInv ts sorted.length (⟨false, st.power.set v2gTs p, st.sortedIdx,
                     if v2gTs == 0 then some p else none, sim⟩ : CompSt α B) := by
-                  refine ⟨by simp only [List.length_set]; exact hlen, ?_, ?_⟩
+                  refine ⟨by simp only [List.length_set]; exact hlen, ?_, ?_, ?_⟩
                   · intro hn
                     have hne : v2gTs ≠ 0 := by
                       intro h0; simp [h0] at hn
@@ -560,6 +575,14 @@ theorem v2gLoop_Zspec (ops : Ops α B) (env : Env α) (v : VehicleS α B) (ts : 
                       show (st.power.set v2gTs p)[0]? = _
                       rw [h0']
                       simp [List.getElem?_set, hpos]
+                    · cases hx
+                  · intro x hx t0 _
+                    split at hx
+                    · simp only [Option.some.injEq] at hx
+                      subst hx
+                      rw [← hp]
+                      simp only [pymin_eq]
+                      exact le_trans (min_le_right _ _) (le_max_left _ _)
                     · cases hx
                 have hsub : (((sorted.take (k + 1)).drop st.sortedIdx).map (·.2)).Nodup :=
                   List.Nodup.sublist (List.Sublist.map _
@@ -587,18 +610,19 @@ theorem v2gLoop_Zspec (ops : Ops α B) (env : Env α) (v : VehicleS α B) (ts : 
                   · rename_i hb
                     simp only [hb, if_true] at h
                     right
-                    exact ⟨_, sp, h, rfl, rfl, rfl, rfl, rfl, hcinv.2.2 sp hsp⟩
+                    exact ⟨_, sp, h, rfl, rfl, rfl, rfl, rfl, hcinv.2.2.1 sp hsp, hcinv.2.2.2 sp hsp,
+                      by intro hs; rw [hs] at hsk; simp at hsk⟩
                   · cases hsp
                 · rename_i hnone
                   by_cases hb : c.broke = true
                   · simp only [hb, if_true] at h hnone
-                    rcases ih { st with power := c.power, sortedIdx := c.sortedIdx, sim := c.sim } st' (hcinv.2.1 hnone) hcinv.1 h with ⟨hu, hzz⟩ | ⟨stx, sp, x1, x2, x3, x4, x5, x6, x7⟩
+                    rcases ih { st with power := c.power, sortedIdx := c.sortedIdx, sim := c.sim } st' (hcinv.2.1 hnone) hcinv.1 h with ⟨hu, hzz⟩ | ⟨stx, sp, x1, x2, x3, x4, x5, x6, x7, x8, x9⟩
                     · exact Or.inl ⟨hu, hzz⟩
-                    · exact Or.inr ⟨stx, sp, x1, x2, x3, x4, x5, x6, x7⟩
+                    · exact Or.inr ⟨stx, sp, x1, x2, x3, x4, x5, x6, x7, x8, x9⟩
                   · simp only [hb, Bool.false_eq_true, if_false] at h
-                    rcases ih { st with sim := c.sim } st' hz hlen h with ⟨hu, hzz⟩ | ⟨stx, sp, x1, x2, x3, x4, x5, x6, x7⟩
+                    rcases ih { st with sim := c.sim } st' hz hlen h with ⟨hu, hzz⟩ | ⟨stx, sp, x1, x2, x3, x4, x5, x6, x7, x8, x9⟩
                     · exact Or.inl ⟨hu, hzz⟩
-                    · exact Or.inr ⟨stx, sp, x1, x2, x3, x4, x5, x6, x7⟩
+                    · exact Or.inr ⟨stx, sp, x1, x2, x3, x4, x5, x6, x7, x8, x9⟩
 
 theorem simulate_R (ops : Ops α B) (R : B → B → Prop) (sl : SimLaw ops R) (b0 : B) (dl : α) :
     ∀ (power : List α) (sim sim' : B), R b0 sim → simulate ops dl power sim = .ok sim' → R b0 sim' := by
@@ -981,7 +1005,7 @@ theorem vehicleBody_LInv (ops : Ops α B) (law : BatLaw ops.toBatOps) (R : B →
                       have hlow := v2gLoop_lower' ops law env v g.ts sorted M hM _ st1 st2
                         (by rw [ugc]; exact hinv.lo) (by rw [ugc]; exact hinv.fore) hst2
                       rcases v2gLoop_Zspec ops env v g.ts sorted hnd _ st1 st2 hz1 hlen1 hst2 with
-                        ⟨⟨_, vgc, _, _, _⟩, hz2⟩ | ⟨stx, sp, happ, xb, xgc, _, _, _, xp⟩
+                        ⟨⟨_, vgc, _, _, _⟩, hz2⟩ | ⟨stx, sp, happ, xb, xgc, _, _, _, xp, _, _⟩
                       · refine ⟨0, by rw [vgc, ugc], by rw [vgc, ugc], by rw [vgc, ugc, add_zero], hlow, hZlist _ hz2⟩
                       · have hpw : st2.power = stx.power := applyV2g_power ops v stx st2 sp happ
                         obtain ⟨c1, c2, c3⟩ := applyV2g_cases ops v stx st2 sp happ
